@@ -46,8 +46,9 @@ Definition policy_eqb (a b : policy) : bool :=
    cachecontrol.CachableResponse said store (no error, no reasons) and returned an expiry of call
    time +-l seconds, or the zero time; cacheobject.ParseResponseCacheControl reported NoCachePresent
    = nocache *)
-(* sf sr sn: what RFC 7234 says about the text that was handed to the library (directive names are
-   case-insensitive): it forbids storing (no-store / private), demands revalidation (no-cache), has no
+(* sf sr sn: what RFC 7234 says about the header set — all its Cache-Control lines, which is also the
+   text handed to the library since the loader joins them (directive names are case-insensitive):
+   it forbids storing (no-store / private), demands revalidation (no-cache), has no
    freshness information — written by the harness's own header parser, used only to check the
    assumption `cc_respects_headers` on header sets the model knows by number only (PRaw) *)
 Inductive ccentry := CCE (pk : int) (neg : bool) (n : int) (store : bool)
